@@ -11,10 +11,12 @@ import (
 	"fmt"
 	"strings"
 
+	"mosn.io/api"
 	v2 "mosn.io/mosn/pkg/config/v2"
 	"mosn.io/mosn/pkg/types"
 	"mosn.io/mosn/pkg/upstream/cluster"
 	"mosn.io/pkg/variable"
+	"sync/atomic"
 
 	. "vh/vhlib"
 )
@@ -39,6 +41,9 @@ func c05cm(run *Run) {
 		}
 		for hix := 0; hix < nh; hix++ {
 			cm.UpdateClusterHosts(name, nil)
+			for a := 0; a < 8; a++ {
+				atomicClear(addrOf(a))
+			}
 			expected := map[int]bool{} // the set the operations define
 			removed := map[int]bool{}  // removed and not added again
 			var items, log []string
@@ -61,10 +66,18 @@ func c05cm(run *Run) {
 				}
 				return l
 			}
+			wantWeight := map[int]uint32{} // "same address, different attributes": the weight the operations leave on an address
+			unhealthy := map[int]bool{}    // health is a property of the ADDRESS: it survives host-object replacement
 			cfgs := func(l []int) []v2.Host {
 				var out []v2.Host
+				batchSeen := map[int]bool{}
 				for _, a := range l {
-					out = append(out, v2.Host{HostConfig: v2.HostConfig{Address: addrOf(a), Weight: uint32(1 + a%3)}})
+					w := uint32(1 + r.Intn(5))
+					out = append(out, v2.Host{HostConfig: v2.HostConfig{Address: addrOf(a), Weight: w}})
+					if !batchSeen[a] { // NewHostSet keeps the first object of an address inside one batch
+						batchSeen[a] = true
+						wantWeight[a] = w
+					}
 				}
 				return out
 			}
@@ -83,6 +96,9 @@ func c05cm(run *Run) {
 				var l []int
 				var op string
 				kind := r.Intn(10)
+				if hix%3 == 1 && step%2 == 1 {
+					kind = 10 // a health flip through the host object currently published
+				}
 				if hix == 0 { // append a batch naming one address twice, remove it, look up
 					kind = []int{4, 8, 4}[step]
 				}
@@ -110,6 +126,21 @@ func c05cm(run *Run) {
 						expected[a] = true
 						delete(removed, a)
 					}
+				case kind == 10:
+					snap0 := cm.GetClusterSnapshot(context.Background(), name)
+					if snap0.HostSet().Size() == 0 {
+						continue
+					}
+					h := snap0.HostSet().Get(r.Intn(snap0.HostSet().Size()))
+					a := noOf(h.AddressString())
+					if unhealthy[a] {
+						h.ClearHealthFlag(api.FAILED_ACTIVE_HC)
+						delete(unhealthy, a)
+					} else {
+						h.SetHealthFlag(api.FAILED_ACTIVE_HC)
+						unhealthy[a] = true
+					}
+					log = append(log, fmt.Sprintf("flip health of addr %d (unhealthy=%v)", a, unhealthy[a]))
 				default:
 					l = batch(3)
 					if hix == 0 {
@@ -126,11 +157,15 @@ func c05cm(run *Run) {
 					}
 					cm.RemoveClusterHosts(name, as)
 				}
-				log = append(log, fmt.Sprintf("%s %v", op, l))
+				if op != "" {
+					log = append(log, fmt.Sprintf("%s %v", op, l))
+				}
 				snap := cm.GetClusterSnapshot(context.Background(), name)
 				var got []int
 				dup := false
 				seen := map[int]bool{}
+				staleAttr := ""
+				anyHealthy := false
 				snap.HostSet().Range(func(h types.Host) bool {
 					a := noOf(h.AddressString())
 					if seen[a] {
@@ -138,11 +173,25 @@ func c05cm(run *Run) {
 					}
 					seen[a] = true
 					got = append(got, a)
+					if w, ok := wantWeight[a]; ok && h.Weight() != w && staleAttr == "" {
+						staleAttr = fmt.Sprintf("addr %d is published with weight %d, the operations leave weight %d on it", a, h.Weight(), w)
+					}
+					if h.Health() == unhealthy[a] && staleAttr == "" {
+						staleAttr = fmt.Sprintf("addr %d is published with Health()=%v, the address is unhealthy=%v", a, h.Health(), unhealthy[a])
+					}
+					if !unhealthy[a] {
+						anyHealthy = true
+					}
 					return true
 				})
-				items = append(items, fmt.Sprintf("(%s %s, %s)", op, coqNats(l), coqNats(got)))
+				if op != "" {
+					items = append(items, fmt.Sprintf("(%s %s, %s)", op, coqNats(l), coqNats(got)))
+				}
 				rep := map[string]interface{}{"kind": "cluster-manager", "policy": pol.name, "history": append([]string{}, log...), "published": got}
 				// ---- the property itself
+				if staleAttr != "" {
+					fail("lb:hostset:stale-host-attributes", fmt.Sprintf("%s: %s after: %s", pol.name, staleAttr, strings.Join(log, "; ")), rep)
+				}
 				if dup {
 					fail("lb:hostset:duplicate-address", fmt.Sprintf("%s: the published host set %v names an address twice after: %s", pol.name, got, strings.Join(log, "; ")), rep)
 				}
@@ -159,12 +208,15 @@ func c05cm(run *Run) {
 					h := lb.ChooseHost(lctx)
 					run.Sum.Distribution["cm-lookups"]++
 					if h == nil {
-						if len(expected) > 0 && len(got) > 0 {
+						if len(expected) > 0 && len(got) > 0 && anyHealthy {
 							fail("lb:"+pol.name+":no-host-while-healthy-exists", fmt.Sprintf("%s returned no host for the host set %v (all healthy)", pol.name, got), rep)
 						}
 						continue
 					}
 					a := noOf(h.AddressString())
+					if unhealthy[a] && anyHealthy {
+						fail("lb:"+pol.name+":unhealthy-host-returned", fmt.Sprintf("%s returned unhealthy addr %d while a healthy host is published, after: %s", pol.name, a, strings.Join(log, "; ")), rep)
+					}
 					if !expected[a] {
 						sig := "lb:" + pol.name + ":non-member-returned"
 						if removed[a] {
@@ -195,3 +247,6 @@ func keysOf(m map[int]bool) []int {
 	}
 	return out
 }
+
+// atomicClear resets the shared health word of an address (between histories)
+func atomicClear(addr string) { atomic.StoreUint64(cluster.GetHealthFlagPointer(addr), 0) }
